@@ -68,13 +68,19 @@ func verifCanary(label string, cond bool) {}
 //@   ensures err == nil ==> result0 != nil && fresh(result0) && remoteKeyOf(result0) == remoteKey
 //@   ensures err == nil ==> 0 <= result0.remoteSignatureLength && result0.remoteSignatureLength <= 65536 &&
 //@           0 <= result0.signatureLength && result0.signatureLength <= 65536
+//@   ensures err == nil ==> 0 <= result0.nonceLength && result0.nonceLength <= 32
 //@   ensures err != nil ==> result0 == nil
 
+// (the shape of a symmetric algorithm is what the per-policy constructors ensure, verified under C14;
+// the dispatch on the policy URI is the assumed part)
 //@ func Symmetric
 //@   props C17 C14
 //@   assumed
 //@   assigns nothing
 //@   ensures err == nil ==> result0 != nil && fresh(result0)
+//@   ensures err == nil ==> ((result0.blockSize == 16 && result0.plainttextBlockSize == 16 &&
+//@           (result0.signatureLength == 20 || result0.signatureLength == 32) && result0.remoteSignatureLength == result0.signatureLength) ||
+//@           (result0.blockSize == 1 && result0.plainttextBlockSize == 1 && result0.signatureLength == 0 && result0.remoteSignatureLength == 0))
 //@   ensures err != nil ==> result0 == nil
 
 //@ func (*EncryptionAlgorithm).Decrypt
